@@ -158,8 +158,9 @@ def drive_name(item):
 
 
 def path_value(kind):
-    return {"Str": "data/a.txt", "PathLike": pathlib.Path("data/a.txt"), "Empty": "", "StrWithTab": "a\tb.txt", "StrWithNewline": "a.txt\n",
-            "StrWithEsc": "a\x1b[0m.txt", "Int": 5, "None": None}[kind]
+    return {"Str": "data/a.txt", "PathLike": pathlib.Path("data/a.txt"), "Unicode": "dätä/ß→.txt", "Empty": "", "StrWithTab": "a\tb.txt",
+            "StrWithNewline": "a.txt\n", "StrWithEsc": "a\x1b[0m.txt", "StrWithNul": "a\x00b", "StrWithDel": "a\x7fb.txt",
+            "StrWithC1": "a\x85b.txt", "PathLikeWithC1": pathlib.PurePosixPath("d/a\x9bb"), "Int": 5, "None": None}[kind]
 
 
 def drive_path(item):
@@ -172,7 +173,7 @@ def drive_path(item):
         if scn["where"] == "inputs":
             wf.target("t", inputs=[v], outputs=["o"])
         elif scn["where"] == "outputs":
-            wf.target("t", inputs=[], outputs=v if scn["pathkind"] in ("Str", "PathLike") and variant % 2 else [v])
+            wf.target("t", inputs=[], outputs=v if scn["pathkind"] in ("Str", "PathLike", "Unicode") and variant % 2 else [v])
         else:
             wf.target("t", inputs={"a": ["ok.txt", v]}, outputs=[["o"]])
         acc = True
